@@ -9,6 +9,7 @@ package nsqadmin
 // process, which the parent reports with the case that was running.
 
 import (
+	"time"
 	"encoding/base64"
 	"net/url"
 	"encoding/json"
@@ -380,6 +381,9 @@ func newAdmin(c MCluster, s *stubs, mod func(*Options)) (*httpServer, error) {
 	base.Logger = nopLogger{}
 	base.LogLevel = lg.FATAL
 	base.HTTPAddress = "127.0.0.1:0"
+	// (no stub upstream stalls; generous client timeouts keep a loaded machine from turning a
+	// slow local round trip into a "failed upstream")
+	base.HTTPClientConnectTimeout, base.HTTPClientRequestTimeout = 30*time.Second, 60*time.Second
 	if c.Direct {
 		base.NSQDHTTPAddresses = s.nsqd[:len(c.Nodes)]
 	} else {
